@@ -70,7 +70,7 @@ class C01(InputProp):
             "uparser.parse_string on the real code (extensions rebuilt from the working tree); distinct = distinct parse-tree shapes")
     assumptions = ("alphabets of DESIGN §2 (mc/gen/wikitext.py); inputs longer than the bounds are outside",
                    "polynomial growth is measured on pumped families (exponent between n=128 and n=512), not proved")
-    chunk = 1500
+    chunk = 250
     soft_timeout = 20.0
     hard_timeout = 60.0
     budget_s = {"quick": 600.0, "thorough": 7200.0}
@@ -112,6 +112,14 @@ class C01(InputProp):
             fams.append(Product(W.SIGMA, ["a", " ", "\n"], [f[0] for f in FRAMES[:2]], name="pump2"))
             fams.append(Product(core, core, [f[0] for f in FRAMES[:2]], name="pump2"))
         self.space = Concat(*fams)
+        # warm-up: one parse with templates, a reference and a table, so that every lazily imported module is loaded before the
+        # first judged case (where the interpreter's recursion limit is hit depends on it: a replay in a fresh process must
+        # start from the same state as the workers)
+        try:
+            self.parse(title="Warm up", raw="{{T|a}} <ref>x</ref> <poem>p</poem>\n{|\n| c\n|}\n<pages index=a from=1 to=1/>", wikidb=LangDB("en", W.template_universe("{{{1}}}")), lang="en")
+            self.parse(title="Warm up", raw="a", lang="en")
+        except Exception:
+            pass
         self.ctx = dict(W.CTX)
         self.nest = {n[0]: n for n in W.NESTABLE}
         self.frames = dict(FRAMES)
@@ -165,6 +173,11 @@ class C01(InputProp):
             raise ValueError(fam)
         return text, db, lang
 
+    def at_depth(self, n, text, db, lang):
+        if n:
+            return self.at_depth(n - 1, text, db, lang)
+        return self.parse_once(text, db, lang)
+
     def parse_once(self, text, db, lang):
         return self.parse(title="Test page", raw=text, wikidb=db, lang=lang)
 
@@ -175,8 +188,15 @@ class C01(InputProp):
         text, db, lang = self.build(case)
         try:
             art = self.parse_once(text, db, lang)
+            if fam == "templ" and "<" in case[1][0] and ("{{" in case[1][0] or "<pages" in case[1][0]):
+                # whether runaway recursion behind a template escapes as RecursionError or is swallowed on the way depends on how
+                # deep the caller's stack already is: the same parse from three more caller depths (a caller is at ANY depth)
+                for extra in (11, 23, 37):
+                    self.at_depth(extra, text, db, lang)
         except Exception as e:
-            return {"key": "exc", "viol": [{"sig": exc_signature(e), "msg": "parse_string(%r) [%s, %s] raised %s: %s" % (
+            # (where the recursion limit is hit depends on the caller's stack depth: the frame is no part of the signature)
+            sig = "RecursionError@anywhere" if isinstance(e, RecursionError) else exc_signature(e)
+            return {"key": "exc", "viol": [{"sig": sig, "msg": "parse_string(%r) [%s, %s] raised %s: %s" % (
                 text[:200], lang, "db" if db else "no db", type(e).__name__, str(e)[:200])}]}
         if type(art).__name__ != "Article":
             return {"key": "nonarticle", "viol": [{"sig": "not-an-article", "msg": "parse_string(%r) returned %r" % (text[:200], type(art))}]}
